@@ -268,7 +268,16 @@ func (s *state) walk(node ast.Node) {
 }
 
 func (s *state) visitSoyFile(node *ast.SoyFileNode) {
-	s.jsln("// This file was automatically generated from ", node.Name, ".")
+	// the name stands in a line comment: a line terminator inside it would end
+	// the comment and turn the rest of the name into code.
+	var name = strings.Map(func(r rune) rune {
+		switch r {
+		case '\n', '\r', '\u2028', '\u2029':
+			return ' '
+		}
+		return r
+	}, node.Name)
+	s.jsln("// This file was automatically generated from ", name, ".")
 	s.jsln("// Please don't edit this file by hand.")
 	s.jsln("")
 	s.visitChildren(node)
